@@ -21,8 +21,8 @@ def scenarios():
     S = []
     inputs = {"tiny": b'{"a":1}\n', "two": b'{"a":1} {"a":2}\n', "medium": (b'{"k":[' + b",".join(b"%d" % i for i in range(40)) + b']}\n'), "empty": b""}
     filters = {"identity": ".", "incr": ".a |= . + 1000000", "shrink": "0", "empty": "empty", "err0": 'error("x")', "err1": '., error("x")', "halt": "halt", "halt1": "., halt(3)", "second_fails": 'if .a == 2 then error("x") else . end'}
-    def add(name, files, filt, mode=0o644, form="rel", fmt=None, bad=None, umask=0o022):
-        S.append({"name": name, "files": files, "filter": filt, "mode": mode, "form": form, "fmt": fmt, "bad": bad, "umask": umask})
+    def add(name, files, filt, mode=0o644, form="rel", fmt=None, bad=None, umask=0o022, opts=()):
+        S.append({"name": name, "files": files, "filter": filt, "mode": mode, "form": form, "fmt": fmt, "bad": bad, "umask": umask, "opts": list(opts)})
     # one file: every filter x every input
     for fn, f in filters.items():
         for inn, data in inputs.items():
@@ -48,6 +48,14 @@ def scenarios():
     add("2files/halt-in-second", [inputs["tiny"], inputs["two"]], "if .a == 2 then halt(5) else . end")
     # other formats
     add("1file/yaml", [b"a: 1\nb: [x, y]\n"], ".a |= . + 1", fmt="yaml")
+    # output options: the file holds exactly what the same invocation without -i prints
+    add("1file/incr/-C", [inputs["tiny"]], ".a |= . + 1", opts=["-C"])
+    if tier != "quick":
+        add("1file/incr/-c -S", [b'{"b": 1, "a": 1}\n'], ".a |= . + 1", opts=["-c", "-S"])
+        add("1file/incr/--tab", [inputs["tiny"]], ".a |= . + 1", opts=["--tab"])
+        add("1file/strings/-r", [b'"x" "y"\n'], ".", opts=["-r"])
+        add("1file/strings/-j", [b'"x" "y"\n'], ".", opts=["-j"])
+        add("1file/to yaml -C", [inputs["tiny"]], ".", opts=["--to", "yaml", "-C"])
     if tier != "quick":
         add("1file/medium/incr/0444", [inputs["medium"]], ".k |= map(. + 1)", mode=0o444)
         add("3files/third-fails", [inputs["tiny"], inputs["tiny"], inputs["two"]], 'if .a == 2 then error("x") else .a |= . + 1 end')
@@ -55,7 +63,7 @@ def scenarios():
         add("2files/empty-output-then-incr", [inputs["tiny"], inputs["tiny"]], "if input_filename | test(\"f0\") then empty else .a |= . + 1 end")
     if tier == "quick":
         keep = {"1file/identity/tiny", "1file/incr/tiny", "1file/shrink/two", "1file/empty/tiny", "1file/err0/tiny", "1file/err1/two", "1file/halt1/tiny", "1file/second_fails/two", "1file/incr/empty",
-                "1file/parse-error-at-1", "1file/identity/mode444", "1file/incr/abs", "2files/second-fails", "2files/incr", "1file/incr/mode666-umask022", "1file/incr/mode644-umask077"}
+                "1file/parse-error-at-1", "1file/identity/mode444", "1file/incr/abs", "1file/incr/-C", "2files/second-fails", "2files/incr", "1file/incr/mode666-umask022", "1file/incr/mode644-umask077"}
         S = [sc for sc in S if sc["name"] in keep]
     return S
 
@@ -91,7 +99,7 @@ def expected_outputs(sc, d):
     res = []
     paths, abss = setup(sc, d)
     for p in paths:
-        pr = subprocess.run([JAQ_FAST, sc["filter"], p], cwd=d, stdout=subprocess.PIPE, stderr=subprocess.PIPE)
+        pr = subprocess.run([JAQ_FAST] + sc.get("opts", []) + [sc["filter"], p], cwd=d, stdout=subprocess.PIPE, stderr=subprocess.PIPE)
         res.append((pr.stdout, pr.returncode == 0))
     return res
 
@@ -107,7 +115,7 @@ def run_case(sc, exp, inject):
             if inject[0] == "kill": cmd += ["--kill-before", str(inject[1])]
             elif inject[0] == "fail": cmd += ["--fail", str(inject[1]), str(inject[2])]
             else: cmd += ["--short-write", str(inject[1])]
-        cmd += ["--", JAQ_FAST, "-i", sc["filter"]] + paths
+        cmd += ["--", JAQ_FAST, "-i"] + sc.get("opts", []) + [sc["filter"]] + paths
         subprocess.run(cmd, cwd=d, stdout=subprocess.PIPE, stderr=subprocess.PIPE, timeout=60, umask=sc.get("umask", 0o022))
         lines = open(log, errors="replace").read().splitlines()
         status = next((l for l in reversed(lines) if l.startswith(("EXIT", "SIGNAL"))), "EXIT ?")
